@@ -40,7 +40,12 @@ def label_components(binary, connectivity):
 def detect_reference(data, threshold, npixels, connectivity, mask=None):
     """Documented semantics of detect_sources. Returns label array or None."""
     with np.errstate(invalid='ignore'):
-        above = np.asarray(data) > threshold          # strict; NaN -> False
+        d = np.asarray(data)
+        if d.dtype.kind in 'fiu':
+            # exact real-number comparison (every float16/32, int value is exact in float64)
+            above = d.astype(np.float64) > np.asarray(threshold, dtype=np.float64)   # strict; NaN -> False
+        else:
+            above = d > threshold
     if mask is not None:
         above = above & ~np.asarray(mask, dtype=bool)
     lab, sizes = label_components(above, connectivity)
